@@ -45,6 +45,7 @@ func (n *Nodes) Len() int {
 // Next returns whether the next call of Node will return a valid node.
 func (n *Nodes) Next() bool {
 	if n.pos >= n.len {
+		n.curr = nil
 		return false
 	}
 	ok := n.iter.Next()
@@ -166,6 +167,7 @@ func (n *NodesByEdge) Len() int {
 // Next returns whether the next call of Node will return a valid node.
 func (n *NodesByEdge) Next() bool {
 	if n.pos >= n.len {
+		n.curr = nil
 		return false
 	}
 	ok := n.iter.Next()
